@@ -22,6 +22,7 @@ import (
 	"bytes"
 	"errors"
 	"fmt"
+	"google.golang.org/grpc/internal/verifhook"
 	"net"
 	"runtime"
 	"sync"
@@ -348,6 +349,7 @@ func newControlBuffer(done <-chan struct{}) *controlBuffer {
 // incomingSettings cleanupStreams etc.
 func (c *controlBuffer) throttle() {
 	if ch := c.trfChan.Load(); ch != nil {
+		verifhook.Point("cbuf.throttle.afterLoad")
 		select {
 		case <-(*ch):
 		case <-c.done:
@@ -369,6 +371,7 @@ func (c *controlBuffer) put(it cbItem) error {
 // the control buffer. A non-nil error, specifically ErrConnClosing, is returned
 // if the control buffer is already closed.
 func (c *controlBuffer) executeAndPut(f func() bool, it cbItem) (bool, error) {
+	verifhook.Point("cbuf.put.beforeLock")
 	c.mu.Lock()
 	defer c.mu.Unlock()
 
@@ -428,6 +431,7 @@ func (c *controlBuffer) get(block bool) (any, error) {
 		c.mu.Unlock()
 
 		// Release the lock above and wait to be woken up.
+		verifhook.Point("cbuf.get.beforeWait")
 		select {
 		case <-c.wakeupCh:
 		case <-c.done:
